@@ -131,80 +131,86 @@ def build(name, body_id, rnd, tier, superset=False):
 def e3_kernel(out):
     eng = mir_engine.Engine()
     obl = e3.Obligations(PID)
-    # (a) the three entry points start from HelperAttributeKinds::new(true) and call the matching core builder with it
-    for entry, core in (("build_from_derive_input", ("build_by_item_struct_core", "build_by_item_enum_core")), ("build_by_item_struct", ("build_by_item_struct_core",)),
-                        ("build_by_item_enum", ("build_by_item_enum_core",))):
-        ex = eng.executor(opaque_local=set(core) | {"remove_attrs", "to_item_struct", "to_item_enum", "HelperAttributeKinds::new"},
-                          trace=set(core) | {"HelperAttributeKinds::new"})
-        fn = eng.find(entry)
+    def part_a():
+        # (a) the three entry points start from HelperAttributeKinds::new(true) and call the matching core builder with it
+        for entry, core in (("build_from_derive_input", ("build_by_item_struct_core", "build_by_item_enum_core")), ("build_by_item_struct", ("build_by_item_struct_core",)),
+                            ("build_by_item_enum", ("build_by_item_enum_core",))):
+            ex = eng.executor(opaque_local=set(core) | {"remove_attrs", "to_item_struct", "to_item_enum", "HelperAttributeKinds::new"},
+                              trace=set(core) | {"HelperAttributeKinds::new"})
+            fn = eng.find(entry)
+            res = ex.run(fn, eng.args_for(fn))
+            obl.note_paths(entry, res, ex)
+            obl.total += 1
+            ok = bool(res)
+            for r in res:
+                if r.kind != "return":
+                    continue
+                news = [e for e in r.events if e[0] == "HelperAttributeKinds::new"]
+                cores = [e for e in r.events if e[0] in core]
+                if cores and not (len(news) == 1 and news[0][1] == ["True"] and "HelperAttributeKinds::new" in cores[0][1][-1]):
+                    ok = False
+            if ok:
+                obl.discharged += 1
+            else:
+                probes.structural(out, "entry-kinds|" + entry, "%s does not start its core builder from HelperAttributeKinds::new(true): %s" % (entry, [r.events for r in res][:2]), "C15.kinds")
+    def part_b():
+        # (b) from_root merges macro arguments and derive_ex attributes, in this order
+        ex = eng.executor(opaque_local={"DeriveEntry::from_args_list", "parse_derive_ex_attrs"}, trace={"DeriveEntry::from_args_list", "parse_derive_ex_attrs", "syn::parse2", "Vec::push", "Extend::Vec::extend"})
+        fn = eng.find("DeriveEntry::from_root")
         res = ex.run(fn, eng.args_for(fn))
-        obl.note_paths(entry, res, ex)
+        obl.note_paths("DeriveEntry::from_root", res, ex)
         obl.total += 1
         ok = bool(res)
+        n_with_attr = 0
         for r in res:
-            if r.kind != "return":
-                continue
-            news = [e for e in r.events if e[0] == "HelperAttributeKinds::new"]
-            cores = [e for e in r.events if e[0] in core]
-            if cores and not (len(news) == 1 and news[0][1] == ["True"] and "HelperAttributeKinds::new" in cores[0][1][-1]):
+            names = [e[0] for e in r.events]
+            if "DeriveEntry::from_args_list" not in names:
+                continue  # a parse error path
+            has_attr = any("disc(attr) == 1" in str(c) for c in r.pc)
+            n_with_attr += 1 if has_attr else 0
+            if "parse_derive_ex_attrs" not in names or names.index("parse_derive_ex_attrs") > names.index("DeriveEntry::from_args_list"):
                 ok = False
-        if ok:
+            if has_attr and not any(n == "syn::parse2" for n in names):
+                ok = False
+            ext = [e for e in r.events if e[0] == "Extend::Vec::extend"]
+            if not ext or "parse_derive_ex_attrs" not in " ".join(ext[-1][1]):
+                ok = False
+        if ok and n_with_attr >= 1:
             obl.discharged += 1
         else:
-            probes.structural(out, "entry-kinds|" + entry, "%s does not start its core builder from HelperAttributeKinds::new(true): %s" % (entry, [r.events for r in res][:2]), "C15.kinds")
-    # (b) from_root merges macro arguments and derive_ex attributes, in this order
-    ex = eng.executor(opaque_local={"DeriveEntry::from_args_list", "parse_derive_ex_attrs"}, trace={"DeriveEntry::from_args_list", "parse_derive_ex_attrs", "syn::parse2", "Vec::push", "Extend::Vec::extend"})
-    fn = eng.find("DeriveEntry::from_root")
-    res = ex.run(fn, eng.args_for(fn))
-    obl.note_paths("DeriveEntry::from_root", res, ex)
-    obl.total += 1
-    ok = bool(res)
-    n_with_attr = 0
-    for r in res:
-        names = [e[0] for e in r.events]
-        if "DeriveEntry::from_args_list" not in names:
-            continue  # a parse error path
-        has_attr = any("disc(attr) == 1" in str(c) for c in r.pc)
-        n_with_attr += 1 if has_attr else 0
-        if "parse_derive_ex_attrs" not in names or names.index("parse_derive_ex_attrs") > names.index("DeriveEntry::from_args_list"):
-            ok = False
-        if has_attr and not any(n == "syn::parse2" for n in names):
-            ok = False
-        ext = [e for e in r.events if e[0] == "Extend::Vec::extend"]
-        if not ext or "parse_derive_ex_attrs" not in " ".join(ext[-1][1]):
-            ok = False
-    if ok and n_with_attr >= 1:
-        obl.discharged += 1
-    else:
-        probes.structural(out, "from_root-merge", "DeriveEntry::from_root does not merge the macro arguments with every derive_ex attribute of the item: %s" % (
-            [[e[0] for e in r.events] for r in res][:4],), "C15.merge")
-    # (c) from_args_list keeps the list order
-    ex = eng.executor(opaque_local={"DeriveItemKind::from_ident", "Bounds::from"}, trace={"Vec::push"}, slice_bound=2)
-    fn = eng.find("DeriveEntry::from_args_list")
-    res = ex.run(fn, eng.args_for(fn))
-    obl.note_paths("DeriveEntry::from_args_list", res, ex)
-    for r in res:
-        if r.kind != "return" or (isinstance(r.value, mx.Agg) and r.value.variant == "Err"):
-            continue
-        obl.total += 1
-        seq = []
-        for e in r.events:
-            m = re.search(r"args_list\.\[(\d+)\]\.items\.\[(\d+)\]", " ".join(e[1][1:]))
-            if m:
-                seq.append((int(m.group(1)), int(m.group(2))))
-        want = sorted(seq)
-        n_items = sum(1 for c in r.pc if re.search(r"len\(args_list\.\[\d+\]\.items\) > \d+", str(c)))
-        if seq == want and len(seq) == len(set(seq)) and len(seq) >= n_items:
-            obl.discharged += 1
-        else:
-            probes.structural(out, "from_args_list-order", "DeriveEntry::from_args_list does not yield one entry per listed trait in list order: %s" % (seq,), "C15.order")
-    # (d) every entry's arguments are its own (nothing carried over from the neighbouring trait or list)
-    from . import e3_extras
-    o2 = e3_extras.safe(e3_extras.entry_args_provenance, out, PID)
-    obl.total += o2.total
-    obl.discharged += o2.discharged
-    obl.solver_time += o2.solver_time
-    obl.functions.update(o2.functions)
+            probes.structural(out, "from_root-merge", "DeriveEntry::from_root does not merge the macro arguments with every derive_ex attribute of the item: %s" % (
+                [[e[0] for e in r.events] for r in res][:4],), "C15.merge")
+    def part_c():
+        # (c) from_args_list keeps the list order
+        ex = eng.executor(opaque_local={"DeriveItemKind::from_ident", "Bounds::from"}, trace={"Vec::push"}, slice_bound=2)
+        fn = eng.find("DeriveEntry::from_args_list")
+        res = ex.run(fn, eng.args_for(fn))
+        obl.note_paths("DeriveEntry::from_args_list", res, ex)
+        for r in res:
+            if r.kind != "return" or (isinstance(r.value, mx.Agg) and r.value.variant == "Err"):
+                continue
+            obl.total += 1
+            seq = []
+            for e in r.events:
+                m = re.search(r"args_list\.\[(\d+)\]\.items\.\[(\d+)\]", " ".join(e[1][1:]))
+                if m:
+                    seq.append((int(m.group(1)), int(m.group(2))))
+            want = sorted(seq)
+            n_items = sum(1 for c in r.pc if re.search(r"len\(args_list\.\[\d+\]\.items\) > \d+", str(c)))
+            if seq == want and len(seq) == len(set(seq)) and len(seq) >= n_items:
+                obl.discharged += 1
+            else:
+                probes.structural(out, "from_args_list-order", "DeriveEntry::from_args_list does not yield one entry per listed trait in list order: %s" % (seq,), "C15.order")
+    def part_d():
+        # (d) every entry's arguments are its own (nothing carried over from the neighbouring trait or list)
+        from . import e3_extras
+        o2 = e3_extras.safe(e3_extras.entry_args_provenance, out, PID)
+        obl.total += o2.total
+        obl.discharged += o2.discharged
+        obl.solver_time += o2.solver_time
+        obl.functions.update(o2.functions)
+    for part in (part_a, part_b, part_c, part_d):
+        e3.safe_part(out, part)
     return eng, obl
 
 
